@@ -466,7 +466,7 @@ fn check(c: &Case, obs: &mut Obs) -> Verdict {
 }
 
 fn subs() -> Vec<Sub> {
-    vec![gen_sub("indexes", case_strategy, |t| t.pick(30_000, 400_000), check)]
+    vec![gen_sub("indexes", case_strategy, |t| t.pick(90_000, 400_000), check)]
 }
 
 pub const DEF: PropertyDef = PropertyDef {
